@@ -168,3 +168,25 @@ Fixpoint sub_bag (a b : rel) : bool :=
   | x :: a' => match remove_one x b with Some b' => sub_bag a' b' | None => false end
   end.
 Definition bag_eq (a b : rel) : bool := Nat.eqb (length a) (length b) && sub_bag a b.
+
+(* set operations on bags *)
+Fixpoint bag_minus (a b : rel) : rel :=          (* EXCEPT ALL: every row of b cancels one equal row of a *)
+  match b with
+  | [] => a
+  | x :: b' => match remove_one x a with Some a' => bag_minus a' b' | None => bag_minus a b' end
+  end.
+Fixpoint bag_inter (a b : rel) : rel :=          (* INTERSECT ALL: a row of a survives while b still has an equal row *)
+  match a with
+  | [] => []
+  | x :: a' => match remove_one x b with Some b' => x :: bag_inter a' b' | None => bag_inter a' b end
+  end.
+Inductive setop := SUnion | SExcept | SIntersect.
+Definition set_op (op : setop) (all : bool) (a b : rel) : rel :=
+  match op, all with
+  | SUnion, true => a ++ b
+  | SUnion, false => distinct (a ++ b)
+  | SExcept, true => bag_minus a b
+  | SExcept, false => distinct (filter (fun r => negb (mem_row r b)) a)
+  | SIntersect, true => bag_inter a b
+  | SIntersect, false => distinct (filter (fun r => mem_row r b) a)
+  end.
